@@ -363,12 +363,28 @@ def step (st : St) (toks : List String) : St × String :=
       (st, hexOrDash (Spec.vmessInstruction C iv key v opt ps cmd pta pad))
     | _, _, _, _, _, _, _, _ => (st, "bad-op")
   | "craft.vm.req" :: rest =>
-    match (kv rest "uuid").bind parseUuid, (kv rest "time").bind String.toNat?, (kv rest "rand").bind unhexOrDash,
+    -- (`cmdkey=`: a request sealed under a raw command key instead of the one derived from a user id)
+    let ck? : Option Bytes := match (kv rest "cmdkey").bind unhexOrDash with
+      | some k => some k
+      | none => ((kv rest "uuid").bind parseUuid).map (Spec.vmessCmdKey C)
+    match ck?, (kv rest "time").bind String.toNat?, (kv rest "rand").bind unhexOrDash,
         (kv rest "nonce").bind unhexOrDash, (kv rest "header").bind unhexOrDash with
-    | some u, some t, some r, some n, some h =>
-      let ck := Spec.vmessCmdKey C u
+    | some ck, some t, some r, some n, some h =>
       (st, hexOrDash (Spec.vmessSealedHeader C ck (Spec.vmessAuthId C ck t r) n h))
     | _, _, _, _, _ => (st, "bad-op")
+  | "spec.eih.chain" :: rest =>
+    -- salt ‖ identity headers as a client with the key chain `password` must write them (SIP022 3.1.3)
+    match (kv rest "cipher").bind Spec.cipherOf, kv rest "password", (kv rest "wire").bind unhexOrDash with
+    | some c, some pw, some w =>
+      let psks := (pw.splitOn ":").filterMap Crypto.Base64.decode
+      let salt := w.take c.keyLen
+      let want := Spec.identityHeaders C c salt psks
+      let got := (w.drop c.keyLen).take want.length
+      if got == want then (st, "ok")
+      else
+        let hop := ((List.range (want.length / 16)).find? fun i => (got.drop (16 * i)).take 16 != (want.drop (16 * i)).take 16).getD 0
+        (st, s!"differs-at-hop-{hop + 1}")
+    | _, _, _ => (st, "bad-op")
   | "craft.vm.chunk" :: rest =>
     match (kv rest "datakey").bind unhexOrDash, (kv rest "dataiv").bind unhexOrDash, (kv rest "lenkey").bind unhexOrDash,
         (kv rest "leniv").bind unhexOrDash, (kv rest "count").bind String.toNat?, (kv rest "payload").bind unhexOrDash with
